@@ -6,13 +6,12 @@ Import ListNotations.
 
 Definition err_eqb (a b : err) : bool :=
   match a, b with
-  | EMissing, EMissing | ECycle, ECycle | ECollType, ECollType | EConflict, EConflict | EFk, EFk | EFuel, EFuel | EOther, EOther => true
+  | EMissing, EMissing | ECycle, ECycle | ECollType, ECollType | EConflict, EConflict | EFk, EFk | EFuel, EFuel
+  | ENotImpl, ENotImpl | ETypeErr, ETypeErr | EMissingType, EMissingType | EOther, EOther => true
   | _, _ => false
   end.
 Definition outcome_eqb (a b : outcome) : bool :=
   match a, b with Done, Done => true | Refused x, Refused y => err_eqb x y | _, _ => false end.
-Fixpoint listN_eqb (a b : list N) : bool :=
-  match a, b with [] , [] => true | x :: r, y :: t => N.eqb x y && listN_eqb r t | _, _ => false end.
 
 (* a list answer or an error class *)
 Inductive fres := FL (l : list N) | FE (e : err).
@@ -26,11 +25,13 @@ Inductive probe :=
 | PChain (p : N) (r : fres)                        (* Registry.getCollectionChain(p) *)
 | PFlat (ns : list N) (r : fres)                   (* collections.query(ns, flatten_chains=True) *)
 | PFlatIncl (ns : list N) (r : fres)               (* ... include_chains=True *)
-| PFind (api : N) (gc : bool) (ns : list N) (ty d : N) (r : fres).
-   (* api 0 Butler.find_dataset, 1 Registry.findDataset, 4 Butler.get   -> min-rank formulation
-          2 Butler.query_datasets(find_first=True)                      -> window formulation
-          3 Registry.queryDatasets(findFirst=True)                      -> legacy formulation
-      r = ids of the datasets returned for data ID d *)
+| PFind (api : N) (cons : list (N * N)) (ns : list N) (ty d : N) (r : fres).
+   (* api 0 Butler.find_dataset, 1 Registry.findDataset   -> min-rank formulation, CALIBRATION collections skipped
+          4 Butler.get                                    -> min-rank formulation, unbounded timespan for calibration types
+          2 Butler.query_datasets(find_first=True)        -> window formulation
+          3 Registry.queryDatasets(findFirst=True)        -> legacy formulation
+      cons = the governor constraint of the query (data ID and WHERE clause; used by api 2 and 3 only: the
+      single-dataset lookups derive theirs from the data ID); r = ids of the datasets returned for data ID d *)
 
 Definition chain_of (s : st) (p : N) : fres :=
   match ctype_of (colls s) p with
@@ -44,9 +45,10 @@ Definition model_probe (s : st) (pr : probe) : fres :=
   | PChain p _ => chain_of s p
   | PFlat ns _ => of_res (flatten s ns)
   | PFlatIncl ns _ => of_res (flatten_incl s ns)
-  | PFind api gc ns ty d _ =>
-      if N.eqb api 2 then of_res (find_window s gc ty d ns)
-      else if N.eqb api 3 then of_res (find_legacy s gc ty d ns)
+  | PFind api cn ns ty d _ =>
+      if N.eqb api 2 then of_res (find_window s cn ty d ns)
+      else if N.eqb api 3 then of_res (find_legacy s cn ty d ns)
+      else if N.eqb api 4 then of_res_opt (find_get s ty d ns)
       else of_res_opt (find_rank s ty d ns)
   end.
 Definition observed (pr : probe) : fres :=
